@@ -64,6 +64,9 @@ def crash_site(err):
     m = re.search(r"/(?:src|include/manifold)/([\w.]+):\d+:\d+: runtime error", err)
     if m:
         return "ubsan@" + m.group(1)
+    st = re.findall(r"^stage (\S+)", err, flags=re.M)
+    if st:                      # killed by the CPU-time watchdog or died without a sanitizer stack: last entry point started
+        return "in@" + st[-1]
     return san_summary(err).split(":")[0]
 
 
